@@ -10,6 +10,7 @@ import ereduce
 import eraw
 import eunits
 import i64table
+import eterm
 import ewho
 import esort
 import eskip
@@ -42,6 +43,11 @@ def run(ctx):
     ctx.explain("E-NUM.f64: MTBDD terminals are hash-consed by bitwise equality of F64, which is numeric equality only for "
                 "normalised values: F64 is built from constants or through the normalising From<f64> only.")
     i64table.check_f64_constructors(ctx, F)
+    ctx.explain("E-NUM.terminals: F64::from normalises both NaN signs and -0.0; F64 eq / hash are the value's bits; partial_cmp treats NaN "
+                "as equal to NaN and unordered otherwise; the text forms (AsciiDisplay, Display) of NaN, -inf, +inf and numbers are read "
+                "back by ParseTagged::parse as the same value, for F64 and I64 (interpreted, f64 bit patterns exact).")
+    nt = eterm.run(ctx, F)
+    ctx.floor("E-NUM.terminals", "interpreted terminal situations", nt, 81)
     ctx.explain("Canonicity after reorderings rests on the reordering code keeping the table keyed correctly: E-UNITS (no "
                 "variable/level mix-up in the managers, oxidd-reorder and the rules crates), E-WHO (invariant-breaking "
                 "primitives called from oxidd-reorder only), E-PERM (+ .relabel: every relabelled level is visited), "
